@@ -277,6 +277,7 @@ func init() {
 			{Name: "edges", Run: edgeUnit("fasta")},
 			{Name: "fieldlens", TShards: 2, Run: lengthUnit("fasta")},
 			{Name: "parallel", Race: true, Run: codecParallel("fasta")},
+			{Name: "histories", Run: codecHistories("fasta")},
 		},
 	})
 }
